@@ -411,10 +411,17 @@ func goInt(g string, big bool) interface{} {
 	return int(n)
 }
 
+// cuSerializesToNilPointer is a custom-scalar value whose serialisation is a typed nil pointer.
+type cuSerializesToNilPointer struct{}
+
 // goLeaf returns the abstract leaf value v (int 5, float 1.5, a boolean, the string "sv", null) in the Go
 // representation g.
 func goLeaf(g string, v *Value) interface{} {
 	switch g {
+	case "strnan":
+		return "NaN" // not null, but no Float: serialises to NaN, which is not a legal value
+	case "cunilp":
+		return cuSerializesToNilPointer{}
 	case "f64":
 		return float64(1.5)
 	case "f32":
@@ -730,7 +737,13 @@ func Build(s *Schema) (*Built, error) {
 			if _, ok := b.Types[name]; !ok {
 				b.Types[name] = graphql.NewScalar(graphql.ScalarConfig{
 					Name:      name,
-					Serialize: func(v interface{}) interface{} { return v },
+					Serialize: func(v interface{}) interface{} {
+						if _, ok := v.(cuSerializesToNilPointer); ok {
+							var p *string // a value that is not null itself but serialises to a nil pointer
+							return p
+						}
+						return v
+					},
 					ParseValue: func(v interface{}) interface{} {
 						if s, ok := v.(string); ok {
 							return Cu(s)
